@@ -756,3 +756,47 @@ fn c14_after_node_removal() {
     kani::cover!(true, "end of harness reachable");
     std::mem::forget(s);
 }
+
+//@ id=C14 tier=quick timeout=900 bounds="two concrete graphs on nodes 1,2,3. Forward: -4 = 1->3 (older sibling), -5 = 1->2 (origin), -6 = 1->2 (newer sibling), -7 = 2->1 (cycle back to the origin's source node); origin = edge -5; breadth_first_search and depth_first_search. Reverse (mirrored): -4 = 3->1, -5 = 2->1 (origin), -6 = 2->1, -7 = 1->2; origin = edge -5; breadth_first_search_reverse and depth_first_search_reverse. Handler always Continue(true)" desc="edge origin whose source node is reached again over a cycle and that has both a newer and an older sibling there: when the node's edges are examined (newest -> already visited origin -> older sibling) the older sibling and the node behind it are still returned, each exactly once, origin first, nothing unreachable, in the documented order and with the documented distances; hand-derived sequence asserted literally" kernel="GraphSearch::breadth_first_search,GraphSearch::depth_first_search,GraphSearch::breadth_first_search_reverse,GraphSearch::depth_first_search_reverse,SearchImpl::search,SearchImpl::process_index,SearchImpl::visit_index,BreadthFirstSearch::expand,DepthFirstSearch::expand,BreadthFirstSearchReverse::expand,DepthFirstSearchReverse::expand" args="--no-assertion-reach-checks" cbmc="--unwindset _RINvNtCs8xvirJzNMvV_4core3ptr9drop_glueNtNtNtCsblifWy3Zr35_4agdb2db8db_error7DbErrorEBH_:1"
+#[kani::proof]
+#[kani::stub(std::fmt::format, crate::verif_support::fmt_stub)]
+#[kani::stub(crate::DbError::new, crate::verif_support::dberror_new_stub)]
+#[kani::unwind(12)]
+fn c14_edge_origin_cycle_older_sibling() {
+    let mut s = crate::storage::verif_h::fresh_arr_storage();
+    // forward graph
+    let mut g = new_arr_graph();
+    let mut m = RefGraph::with_limit(8);
+    graph_step(&mut g, &mut s, &mut m, 0, 0, 0);
+    graph_step(&mut g, &mut s, &mut m, 0, 0, 0);
+    graph_step(&mut g, &mut s, &mut m, 0, 0, 0);
+    graph_step(&mut g, &mut s, &mut m, 1, 1, 3);
+    graph_step(&mut g, &mut s, &mut m, 1, 1, 2);
+    graph_step(&mut g, &mut s, &mut m, 1, 1, 2);
+    graph_step(&mut g, &mut s, &mut m, 1, 2, 1);
+    assert!(m.is_edge(-4) && m.is_edge(-5) && m.is_edge(-6) && m.is_edge(-7), "edge ids are not -4..-7");
+    let r = c14_run(&g, &s, &m, 0, -5);
+    assert!(c14_is(&r, &[-5, 2, -7, 1, -6, -4, 3], &[0, 1, 2, 3, 4, 4, 5]), "BFS from edge -5: older sibling -4 and node 3 found after the cycle");
+    std::mem::forget(r);
+    let r = c14_run(&g, &s, &m, 1, -5);
+    assert!(c14_is(&r, &[-5, 2, -7, 1, -6, -4, 3], &[0, 1, 2, 3, 4, 4, 5]), "DFS from edge -5: older sibling -4 and node 3 found after the cycle");
+    std::mem::forget(r);
+    // mirrored graph for the reverse searches
+    let mut g2 = new_arr_graph();
+    let mut m2 = RefGraph::with_limit(8);
+    graph_step(&mut g2, &mut s, &mut m2, 0, 0, 0);
+    graph_step(&mut g2, &mut s, &mut m2, 0, 0, 0);
+    graph_step(&mut g2, &mut s, &mut m2, 0, 0, 0);
+    graph_step(&mut g2, &mut s, &mut m2, 1, 3, 1);
+    graph_step(&mut g2, &mut s, &mut m2, 1, 2, 1);
+    graph_step(&mut g2, &mut s, &mut m2, 1, 2, 1);
+    graph_step(&mut g2, &mut s, &mut m2, 1, 1, 2);
+    let r = c14_run(&g2, &s, &m2, 2, -5);
+    assert!(c14_is(&r, &[-5, 2, -7, 1, -6, -4, 3], &[0, 1, 2, 3, 4, 4, 5]), "reverse BFS from edge -5: older incoming sibling -4 and node 3 found after the cycle");
+    std::mem::forget(r);
+    let r = c14_run(&g2, &s, &m2, 3, -5);
+    assert!(c14_is(&r, &[-5, 2, -7, 1, -6, -4, 3], &[0, 1, 2, 3, 4, 4, 5]), "reverse DFS from edge -5: older incoming sibling -4 and node 3 found after the cycle");
+    std::mem::forget(r);
+    kani::cover!(true, "end of harness reachable");
+    std::mem::forget(s);
+}
